@@ -3,7 +3,8 @@
    correspondence, proved so far only in the parts below):
      forall c T b v r, decode c (Some T) b = Ok (DV T v, r) ->
        wf_val T v = true /\ exists e v', encode c .. T v = Ok e /\ decode c (Some T) e = Ok (DV T v', []) /\ abs T v' = abs T v. *)
-From PV Require Import Base.Bytes Model.Types Model.Proc Model.Enc Model.Dec Proofs.DecSound.
+From PV Require Import Base.Bytes Model.Types Model.TableTypes Model.Proc Model.Enc Model.Dec Gen.Tables Proofs.DecSound
+     Proofs.DerReference Proofs.AcceptedWellFormed Proofs.AcceptedReencodable Proofs.AcceptedLength.
 Local Open Scope N_scope.
 
 (* Every value a SEQUENCE/SET decoder returns - for any input, any length form, any way its members
@@ -27,3 +28,56 @@ Example C10_nonvacuous :
   decode BER (Some (TSeq [(Req, TInt); (Opt, TOcts)])) [48; 3; 2; 1; 5] = Ok (DV (TSeq [(Req, TInt); (Opt, TOcts)]) (VRec [Some (VInt 5); None]), [])
   /\ decode BER (Some (TSeq [(Req, TInt); (Opt, TOcts)])) [48; 3; 4; 1; 5] = Err EMalformed.
 Proof. split; vm_compute; reflexivity. Qed.
+
+(* For EVERY byte string b whatsoever (valid, damaged, random), every codec, every fuel and every
+   guiding type: if the decoder returns, what it returns is a value of exactly the guiding type, and the
+   remainder is a suffix of the input *)
+Theorem C10_accepted_is_of_the_type : forall c fuel T b d tl,
+  decode_with c fuel (Some T) b = Ok (d, tl) ->
+  exists v, d = DV T v /\ (AcceptedWellFormed.frag T = true -> val_of T v = true) /\ exists used, b = used ++ tl.
+Proof. exact accepted_is_well_formed_gen. Qed.
+Print Assumptions C10_accepted_is_of_the_type.
+
+(* ... and that value is complete and well-typed at every level (val_of: right constructor everywhere,
+   one slot per declared component with every mandatory one present, CHOICE names an existing
+   alternative and holds a value of it, list elements of the element type, OID arcs the encoder takes).
+   frag: every type of the universe - SET, CHOICE, OPTIONAL/DEFAULT, ANY, any tagging - except an
+   untagged CHOICE reaching an untagged ANY used as a SET member / CHOICE alternative / OPTIONAL-run member *)
+Theorem C10_accepted_is_well_formed : forall c fuel T b d tl,
+  AcceptedWellFormed.frag T = true -> decode_with c fuel (Some T) b = Ok (d, tl) ->
+  exists v, d = DV T v /\ val_of T v = true /\ exists used, b = used ++ tl.
+Proof. exact accepted_is_well_formed. Qed.
+Print Assumptions C10_accepted_is_well_formed.
+
+(* ... and the same codec's encoder accepts it (enc_ty: no EXPLICIT UNIVERSAL tag, no time type under
+   CER/DER - see C10_refuted_time below -, scalar non-REAL DEFAULTs; reals_fit / esize < max_len: the
+   exponent and the total length fit what length octets can express) *)
+Theorem C10_accepted_is_reencodable : forall c fuel T b d tl,
+  AcceptedWellFormed.frag T = true -> enc_ty c T = true ->
+  decode_with c fuel (Some T) b = Ok (d, tl) ->
+  exists v, d = DV T v /\ val_of T v = true
+            /\ (reals_fit v = true -> N.of_nat (esize T v) < max_len -> exists b', encode c true 0 T v = Ok b').
+Proof. exact accepted_is_reencodable. Qed.
+Print Assumptions C10_accepted_is_reencodable.
+
+(* every well-formed value is encodable, in every mode of every codec *)
+Theorem C10_wellformed_is_encodable : forall c defm chunk T v,
+  enc_ty c T = true -> val_of T v = true -> reals_fit v = true ->
+  N.of_nat (esize T v) < max_len ->
+  exists b', encode c defm chunk T v = Ok b' /\ (length b' <= esize T v)%nat.
+Proof. exact wellformed_is_encodable. Qed.
+Print Assumptions C10_wellformed_is_encodable.
+
+(* the consumed length is what the length octets said *)
+Theorem C10_length_respected : forall c fuel sp b d tl,
+  decode_with c fuel sp b = Ok (d, tl) ->
+  exists t r ol r2, dec_ident b = Some (t, r) /\ dec_len r = Some (ol, r2)
+    /\ (ol = None -> support_indef c = true)
+    /\ forall l, ol = Some l -> l <> 0 -> exists content, r2 = content ++ tl /\ N.of_nat (length content) = l.
+Proof. exact accepted_length_respected. Qed.
+Print Assumptions C10_length_respected.
+
+(* was finding F55: an empty indefinite-length tagged CHOICE is now refused *)
+Example C10_valueless_choice_refused :
+  decode BER (Some (TExp (mkTag Ctx false 0) (TChoice [TInt; TOcts]))) [160; 128; 0; 0] = Err EMalformed.
+Proof. vm_compute. reflexivity. Qed.
